@@ -141,7 +141,20 @@ func runC20(rng *rand.Rand, scale int, out string, shards int, seed int64, corpu
 		if hung {
 			break
 		}
-		outs, errs, pv, perr, pan := cmd.VerifC20Preproc(c.Defines, c.paramText(), c.Strs)
+		var outs, errs []string
+		var pv [][2]string
+		var perr, pan string
+		if !guarded(func() { outs, errs, pv, perr, pan = cmd.VerifC20Preproc(c.Defines, c.paramText(), c.Strs) }) {
+			// preprocessing did not terminate: a failing input of its own
+			rec.Panic = "did not terminate"
+			for range c.Strs {
+				rec.Outs = append(rec.Outs, "")
+				rec.Errs = append(rec.Errs, nil)
+			}
+			pps = append(pps, rec)
+			sum.Outcomes["pp-timeout"]++
+			break
+		}
 		rec.Outs, rec.PVars, rec.PErr, rec.Panic = outs, pv, perr, pan
 		for _, e := range errs {
 			rec.Errs = append(rec.Errs, undefinedNames(e))
